@@ -91,6 +91,55 @@ func c20EndToEnd(t *gen.Tools, r *ev.Run, root, tier string) {
 		gtexts = append(gtexts, text)
 		gwant = append(gwant, w)
 	}
+	// the same, grouped by spelling kind: six DIFFERENT code points spelled the same way (shared prefixes such as
+	// \u00.. or \U0000.., shared lead bytes) in one grammar
+	kinds := map[string][]string{}
+	var kindOrder []string
+	for _, l := range lits {
+		k := "raw" + strconv.Itoa(len(l))
+		if l[1] == '\\' && len(l) > 3 {
+			k = l[1:3]
+			if l[2] >= '0' && l[2] <= '7' {
+				k = "oct"
+			}
+			if l[3] >= 'A' && l[3] <= 'F' || l[len(l)-2] >= 'A' && l[len(l)-2] <= 'F' {
+				k += "U"
+			}
+		}
+		if _, seen := kinds[k]; !seen {
+			kindOrder = append(kindOrder, k)
+		}
+		kinds[k] = append(kinds[k], l)
+	}
+	for _, k := range kindOrder {
+		ls := kinds[k]
+		for i := 0; i < len(ls); i += 5 {
+			end := i + 6
+			if end > len(ls) {
+				end = len(ls)
+			}
+			if end-i < 2 {
+				break
+			}
+			text := ""
+			set := map[rune]bool{}
+			for q, l := range ls[i:end] {
+				v, _, _, _ := strconv.UnquoteChar(l[1:], '\'')
+				if set[v] {
+					continue
+				}
+				text += fmt.Sprintf("t%d : %s ;\n", q, l)
+				set[v] = true
+			}
+			var w []rune
+			for v := range set {
+				w = append(w, v)
+			}
+			sort.Slice(w, func(a, b int) bool { return w[a] < w[b] })
+			gtexts = append(gtexts, text)
+			gwant = append(gwant, w)
+		}
+	}
 	sw.run(gtexts, nil, true, false, func(o *GenOut) {
 		mu.Lock()
 		defer mu.Unlock()
